@@ -362,12 +362,16 @@ VH_CMD(addrman)
             am->SetKeyAndSeed(key, seed);
         }
         // density class: few groups => dense bucket collisions
-        const uint32_t groups = std::array<uint32_t, 5>{1, 2, 5, 40, 2000}[rng.below(5)];
-        const size_t pool_n = std::array<size_t, 4>{30, 120, 400, 1200}[rng.below(4)];
-        const size_t src_n = 1 + rng.below(rng.coin() ? 3 : 60);
+        // every third case: collisions in the tried table are provoked in bursts and rarely resolved, so that the bounded set of
+        // pending test-before-evict collisions fills up
+        const bool lazy_resolve = (c % 3 == 2);
+        const uint32_t groups = lazy_resolve ? 1 + static_cast<uint32_t>(rng.below(2)) : std::array<uint32_t, 5>{1, 2, 5, 40, 2000}[rng.below(5)];
+        const size_t pool_n = lazy_resolve ? 700 : std::array<size_t, 4>{30, 120, 400, 1200}[rng.below(4)];
+        const size_t src_n = lazy_resolve ? 60 : 1 + rng.below(rng.coin() ? 3 : 60);
         // network mix
         std::vector<uint32_t> netw{40, 15, 10, 8, 8, 5, 3, 2};
         if (rng.chance(1, 4)) netw = {10, 10, 10, 10, 10, 5, 2, 2};
+        if (lazy_resolve) netw = {80, 5, 3, 3, 3, 3, 2, 1};
         std::vector<CService> pool;
         for (size_t i = 0; i < pool_n; ++i) {
             const CNetAddr a = MakeAddr(rng, static_cast<int>(rng.weighted(netw)), groups);
@@ -376,7 +380,7 @@ VH_CMD(addrman)
             if (rng.chance(1, 20)) pool.emplace_back(a, static_cast<uint16_t>(port + 1)); // same host, other port
         }
         std::vector<CNetAddr> sources;
-        for (size_t i = 0; i < src_n; ++i) sources.push_back(MakeAddr(rng, static_cast<int>(rng.weighted({50, 15, 10, 5, 5, 5, 5, 5})), rng.coin() ? groups : 2000));
+        for (size_t i = 0; i < src_n; ++i) sources.push_back(MakeAddr(rng, static_cast<int>(rng.weighted({50, 15, 10, 5, 5, 5, 5, 5})), (rng.coin() && !lazy_resolve) ? groups : 2000));
 
         std::array<uint64_t, NOPS> opcount{};
         uint64_t bad = 0, roundtrips = 0, getaddr_n = 0, evictions = 0, good_moved = 0, coll_queued = 0, add_true = 0, select_hit = 0, max_coll = 0, reloaded_switch = 0;
@@ -400,14 +404,15 @@ VH_CMD(addrman)
             max_coll = std::max<uint64_t>(max_coll, r.collisions);
             return r;
         };
-        const std::vector<uint32_t> w{30, 6, 18, 10, 5, 3, 6, 5, 6, 4, 2, 8, 1};
+        std::vector<uint32_t> w{30, 6, 18, 10, 5, 3, 6, 5, 6, 4, 2, 8, 1};
+        if (lazy_resolve) w[RESOLVE] = 1, w[GOOD] = 30, w[SELCOLL] = 2;
         for (int64_t step = 0; step < nops && bad == 0; ++step) {
             const Op op = static_cast<Op>(rng.weighted(w));
             ++opcount[op];
             switch (op) {
             case ADD: {
                 std::vector<CAddress> v;
-                const size_t n = 1 + rng.below(rng.chance(1, 5) ? 60 : 6);
+                const size_t n = 1 + rng.below((rng.chance(1, 5) || lazy_resolve) ? 60 : 6);
                 for (size_t i = 0; i < n; ++i) {
                     int64_t t;
                     const auto cls = rng.below(10);
@@ -626,6 +631,7 @@ VH_CMD(addrman)
         vh::log().obs("tried_collisions_queued", static_cast<int64_t>(coll_queued));
         vh::log().obs("moved_to_tried", static_cast<int64_t>(good_moved));
         vh::log().obs_max("pending_collisions", static_cast<int64_t>(max_coll));
+        if (max_coll >= ADDRMAN_SET_TRIED_COLLISION_SIZE) vh::log().obs("pending_collisions_cap_reached");
         vh::log().obs("audits", nops);
     }
     SetMockTime(0);
